@@ -507,6 +507,16 @@ def tpsum_unit(res):
     return res
 
 
+def _composition_units():
+    """memory forms composed from a register form: pressure = register form + load multiplier x load row + store multiplier x
+    store row (the 'documented load/store multiplier' clause of the statement) - the C08 contracts, part of this check"""
+    from .c08 import selection_unit, compose_unit
+    return [Unit("C01/composed-forms/multiplier-scaling(any table length)/x86", selection_unit("x86"), "P", [(AS, "ArchSemantics.assign_tp_lt")]),
+            Unit("C01/composed-forms/multiplier-scaling(any table length)/aarch64", selection_unit("aarch64"), "P", [(AS, "ArchSemantics.assign_tp_lt")]),
+            Unit("C01/composed-forms/scenarios/x86", compose_unit("x86"), "Pb", [(AS, "ArchSemantics.assign_tp_lt")], timeout=1500),
+            Unit("C01/composed-forms/scenarios/aarch64", compose_unit("aarch64"), "Pb", [(AS, "ArchSemantics.assign_tp_lt")], timeout=1500)]
+
+
 def units(tier):
     return [
         Unit("C01/average_port_pressure", avg_unit, "P", [(HW, "MachineModel.average_port_pressure")]),
@@ -516,6 +526,7 @@ def units(tier):
         Unit("C01/_handle_instruction_found", handle_found_unit, "P", [(AS, "ArchSemantics._handle_instruction_found")]),
         Unit("C01/assign_tp_lt/no-data-branches", tp_lt_trivial_unit, "P", [(AS, "ArchSemantics.assign_tp_lt")]),
         Unit("C01/get_throughput_sum", tpsum_unit, "Pb", [(AS, "ArchSemantics.get_throughput_sum")]),
+    ] + _composition_units() + [
         bounded_unit("C01/assign_optimal_throughput/feasibility", "c01_optimal", [(AS, "ArchSemantics.assign_optimal_throughput")],
                      extra_args=["c01"], timeout=1500),
     ]
